@@ -110,14 +110,15 @@ class WeibullFailureModel:
         # Tube reliability is the minimum of all the time steps
         tube = np.min(p_tube, axis=1)
 
-        # Panel reliability
-        tube_multipliers = np.array(
-            [
-                [t.multiplier_val for (ti, t) in p.tubes.items()]
-                for (pi, p) in receiver.panels.items()
-            ]
-        )
-        panel = np.sum(tube.reshape(receiver.npanels, -1) * tube_multipliers, axis=1)
+        # Panel reliability (panels need not hold the same number of tubes)
+        panel = []
+        first = 0
+        for _, p in receiver.panels.items():
+            multipliers = np.array([t.multiplier_val for (ti, t) in p.tubes.items()])
+            last = first + len(multipliers)
+            panel.append(np.sum(tube[first:last] * multipliers))
+            first = last
+        panel = np.array(panel)
 
         # Overall reliability
         overall = np.sum(panel)
